@@ -109,6 +109,12 @@ check("C11", "exploration",
       "property-based testing (rapid) over a generated byte-stream chunking proxy with a round-trip / sequence oracle",
       "DESIGN.md §4 C11, §3.6")
 
+check("C14", "fault_enumeration",
+      "A generator-owned TCP proxy injects the faults: connection cut after every byte offset of a multi-frame stream (enumerated), refused connections against every retry limit, peer restarts, injected undecodable bodies and invalid length prefixes; the receiver's history is judged as a subsequence of the sent one, dead letters and recovery by exact counts, and the caller of Tell is located by a stack scan while the peer is unreachable.",
+      "Exhaustive over cut offsets of one fixed stream (thorough); the other fault kinds are sampled. Real TCP and real time: waits are patience, never verdicts. One known finding (Tell blocks in the retry loop) is listed in known_findings.json.",
+      "fault enumeration through a byte-level proxy + property-based testing (rapid) with a subsequence oracle",
+      "DESIGN.md §4 C14, §3.6")
+
 NOT_YET = {}
 
 def main():
